@@ -7,11 +7,11 @@ from ..gen import G
 
 ID = "C11"
 LEVEL = "exploration"
-RULE = ("cases are import graphs (DAGs) over up to 4 (quick) / 5 (thorough) modules with entry m0: every edge is `import m` or "
-        "`import a, b from m`, each import statement sits at a chosen position among the importer's side-effecting top-level "
-        "statements and is followed by a call that bumps the imported module's counter; modules live flat or partly in a "
+RULE = ("cases are import graphs (DAGs) over up to 4 (quick) / 5 (thorough) modules with entry m0: every edge is `import m`, "
+        "`import a, b from m`, the type-only `import type T from m` or the mixed `import type T, a, b from m`, each import statement sits at a chosen position among the importer's side-effecting top-level "
+        "statements and is followed by a call that bumps the imported module's counter (or, for a type-only import, a declaration that uses the type); modules live flat or partly in a "
         "sub-directory, paths optionally spelled with `./`; every module exports a bump function, a getter, a list and a scalar "
-        "and keeps one private name. Enumerated: all DAGs over <= 3 modules x both import forms per edge x 2 placements; random: "
+        "and keeps one private name. Enumerated: all DAGs over <= 3 modules x all four import forms per edge x 2 placements; random: "
         "Hypothesis graphs. Oracle: a depth-first simulation (each module once, at its first executed import, completed before "
         "the importer continues; one counter per module shared by all importers) prescribes the exact trace, checked under `run` "
         "and under `compile` + `execute`; negative variants (use of a private name, assignment through the module object) must be "
@@ -68,6 +68,14 @@ def build(case):
             elif form == "module":
                 slots[slot].append("import %s" % p)
                 slots[slot].append("print \"m%d->m%d \" + m%d.bump_%d()" % (i, j, j, j))
+            elif form == "type":
+                # only a TYPE is imported: the module must be initialised by this statement all the same
+                slots[slot].append("import type T_%d from %s" % (j, p))
+                slots[slot].append("tv_%d_%d_%d: T_%d = %d" % (i, j, slot, j, j))
+                slots[slot].append("print \"m%d->m%d type \" + tv_%d_%d_%d" % (i, j, i, j, slot))
+            elif form == "mixed":
+                slots[slot].append("import type T_%d, bump_%d, get_%d from %s" % (j, j, j, p))
+                slots[slot].append("print \"m%d->m%d \" + bump_%d()" % (i, j, j))
             else:
                 slots[slot].append("import bump_%d, get_%d from %s" % (j, j, p))
                 slots[slot].append("print \"m%d->m%d \" + bump_%d()" % (i, j, j))
@@ -82,7 +90,8 @@ def build(case):
                       "export counter_%d: int = 0" % k,
                       "export bump_%d: fn() -> int = fn() -> int {\n\tmodify counter_%d = counter_%d + 1\n\treturn counter_%d\n}" % (k, k, k, k),
                       "export get_%d: fn() -> int = fn() -> int {\n\treturn counter_%d + hidden_%d - %d\n}" % (k, k, k, 100 + k),
-                      "export items_%d: [int...] = [%d]" % (k, k)]
+                      "export items_%d: [int...] = [%d]" % (k, k),
+                      "export type T_%d int" % k]
         lines.append("print \"m%d:1\"" % k)
         lines += slots[1]
         lines.append("print \"m%d:2\"" % k)
@@ -90,6 +99,8 @@ def build(case):
         if k == 0:
             for (i, j, form, slot, dot) in by_src[0]:
                 if P(j) != "full" or [i, j, form] in infn:
+                    continue
+                if form == "type":
                     continue
                 if form == "module":
                     lines.append("print \"final m%d \" + m%d.get_%d()" % (j, j, j))
@@ -114,13 +125,16 @@ def build(case):
                 if P(j) != "full":
                     out.append("m%d->m%d%s" % (i, j, str(7 * j) if P(j) == "const" else ""))
                     continue
+                if form == "type":
+                    out.append("m%d->m%d type %d" % (i, j, j))
+                    continue
                 counter[j] += 1
                 out.append("m%d->m%d %d" % (i, j, counter[j]))
             if slot < 2:
                 out.append("m%d:%d" % (k, slot + 1))
         if k == 0:
             for (i, j, form, s, dot) in by_src[0]:
-                if P(j) != "full" or [i, j, form] in infn:
+                if P(j) != "full" or [i, j, form] in infn or form == "type":
                     continue
                 out.append("final m%d %d" % (j, counter[j]))
                 if form == "module":
@@ -192,7 +206,8 @@ def check(case):
         indeg[j] = indeg.get(j, 0) + 1
         forms.setdefault(j, set()).add(f)
     nt = any(v >= 2 for v in indeg.values()) or any(len(v) == 2 for v in forms.values())
-    labels = ["n=%d" % case["n"], "layout=" + case["layout"]] + (["diamond"] if any(v >= 2 for v in indeg.values()) else []) + \
+    formset = set(f for _, _, f, _, _ in case["edges"])
+    labels = ["form=" + f for f in sorted(formset)] + ["n=%d" % case["n"], "layout=" + case["layout"]] + (["diamond"] if any(v >= 2 for v in indeg.values()) else []) + \
              (["dot-spelling"] if any(d for *_, d in case["edges"]) else []) + (["import-inside-function"] if case.get("infn") else []) + ["exports=" + v for v in set((case.get("profiles") or {}).values())]
     r = CaseResult(nt_keys=[describe(case)] if nt else [], labels=labels, sample={"case": describe(case), "main.ms": files["main.ms"], "expected": exp[:12]})
     if fails:
@@ -220,7 +235,11 @@ def enumerated(tier, seed):
     maxn = 3 if tier == "quick" else 4
     for n in range(2, maxn + 1):
         for es in all_dags(n):
-            for forms in itertools.product(["module", "names"], repeat=len(es)):
+            allforms = list(itertools.product(["module", "names", "type", "mixed"], repeat=len(es)))
+            if len(allforms) > 256:
+                import random
+                allforms = list(itertools.product(["module", "names"], repeat=len(es))) + random.Random(seed * 1000 + len(es)).sample(allforms, 96)
+            for forms in allforms:
                 for placement in (0, 1):
                     edges = [(i, j, f, (placement + b) % 3, False) for b, ((i, j), f) in enumerate(zip(es, forms))]
                     cases.append({"n": n, "edges": edges, "layout": "flat"})
@@ -247,7 +266,8 @@ def graphs(draw):
     for j in range(1, n):
         importers = [i for i in range(j) if g.chance(45)] or [g.int(0, j - 1)]
         for i in importers:
-            forms = ["module", "names"] if g.chance(15) else [g.choice(["module", "names"])]
+            forms = g.choice([["module", "names"], ["type", "module"], ["type", "names"], ["mixed", "module"]]) if g.chance(15) else \
+                [g.choice(["module", "names", "module", "names", "type", "mixed"])]
             for f in forms:
                 edges.append((i, j, f, g.int(0, 2), g.chance(12)))
     profiles = {str(j): g.choice(["none", "const"]) for j in range(1, n) if g.chance(20)}
@@ -258,9 +278,10 @@ def graphs(draw):
             if (e[0], e[1]) in seen:
                 continue
             seen.add((e[0], e[1]))
+            e = (e[0], e[1], "module", e[3], e[4])
         kept.append(e)
     edges = kept
-    infn = [[e[0], e[1], e[2]] for e in edges if g.chance(15)]
+    infn = [[e[0], e[1], e[2]] for e in edges if e[2] in ("module", "names") and g.chance(15)]
     # one name per importer: an edge inside a function needs its (importer, imported, form) to be unique
     infn = [x for x in infn if sum(1 for e in edges if [e[0], e[1], e[2]] == x) == 1]
     if infn:
